@@ -8,7 +8,7 @@
    C07_adjacent_partial below. *)
 From Coq Require Import NArith List.
 From SP Require Import Model.Hilbert Spec.Curve Proofs.HilbertUpto Proofs.HilbertRoundtrip
-     Proofs.HilbertEnds Proofs.HilbertRefine Proofs.CurveRef.
+     Proofs.HilbertEnds Proofs.HilbertRefine Proofs.HilbertCurveRef.
 Import ListNotations.
 Local Open Scope N_scope.
 
